@@ -614,22 +614,46 @@ impl StreamSession {
     /// rt / idle in ticks; the response timeout is set half a tick short so
     /// that the code's `elapsed > timeout` is decided by whole ticks.
     pub fn new(rt: u64, idle: u64, wchunk: usize) -> Self {
+        Self::with_conf(&Self::conf_of(rt, rt, idle), wchunk).expect("conf").0
+    }
+
+    /// The script ClientStream.tla calls StS(rt, srt, idle).
+    pub fn conf_of(rt: u64, srt: u64, idle: u64) -> Value {
+        let t = TICK.as_millis() as u64;
+        let mut calls = vec![json!({"f": "set_response_timeout", "v": rt * t - t / 2})];
+        if srt != rt {
+            calls.push(json!({"f": "set_streaming_response_timeout", "v": srt * t - t / 2}));
+        }
+        calls.push(json!({"f": "set_idle_timeout", "v": idle * t}));
+        json!({"route": "new", "calls": calls})
+    }
+
+    /// A connection made from a configuration script (routes "new",
+    /// "default": with_config; "conn_new": Connection::new); also what the
+    /// getters of the configuration object say.
+    pub fn with_conf(sc: &Value, wchunk: usize) -> Option<(Self, Value)> {
         let act = Activity::default();
         let (ms, peer) = mock_stream(&act, wchunk);
-        let mut cfg = stream::Config::new();
-        cfg.set_response_timeout(TICK * (rt as u32) - TICK / 2);
-        cfg.set_idle_timeout(TICK * (idle as u32));
-        let (conn, transport) = StreamConn::with_config(ms, cfg);
+        let cfg = st_config(sc)?;
+        let eff = st_eff(&cfg);
+        let (conn, transport) = if route_of(sc) == "conn_new" {
+            StreamConn::new(ms)
+        } else {
+            StreamConn::with_config(ms, cfg)
+        };
         tokio::spawn(counted(transport.run(), &act));
-        StreamSession {
-            act,
-            clock: Clock::new(),
-            conn: Some(conn),
-            peer,
-            comp: Arc::new(Mutex::new(vec![])),
-            nreq: 0,
-            hang: false,
-        }
+        Some((
+            StreamSession {
+                act,
+                clock: Clock::new(),
+                conn: Some(conn),
+                peer,
+                comp: Arc::new(Mutex::new(vec![])),
+                nreq: 0,
+                hang: false,
+            },
+            eff,
+        ))
     }
 
     pub async fn settle(&mut self) {
@@ -855,12 +879,285 @@ impl Drop for DgramSock {
 
 pub type DgramConn = dgram::Connection<DgramNet>;
 
-pub fn dgram_conn(net: &DgramNet, read_timeout_ticks: u64, max_retries: u8, max_parallel: usize) -> DgramConn {
-    let mut cfg = dgram::Config::new();
-    cfg.set_read_timeout(TICK * (read_timeout_ticks as u32));
-    cfg.set_max_retries(max_retries);
-    cfg.set_max_parallel(max_parallel);
-    dgram::Connection::with_config(net.clone(), cfg)
+//------------ configuration scripts (ClientConfig.tla) ------------------------
+//
+// A script is `{route, calls: [{f, v}]}`: the public configuration calls a
+// caller makes, performed here one by one on the real objects; `*_eff` is
+// what the getters of the finished object say.  Durations are in
+// milliseconds, None is -1.
+
+fn ms(v: i64) -> Duration {
+    Duration::from_millis(v.max(0) as u64)
+}
+
+fn calls_of(sc: &Value) -> Vec<(String, i64, bool)> {
+    sc.get("calls")
+        .and_then(|c| c.as_array())
+        .map(|a| {
+            a.iter()
+                .map(|k| {
+                    (
+                        k["f"].as_str().unwrap_or("").to_string(),
+                        k["v"].as_i64().unwrap_or(0),
+                        k["v"].as_bool().unwrap_or(false),
+                    )
+                })
+                .collect()
+        })
+        .unwrap_or_default()
+}
+
+fn route_of(sc: &Value) -> &str {
+    sc.get("route").and_then(|r| r.as_str()).unwrap_or("new")
+}
+
+pub fn dg_apply(cfg: &mut dgram::Config, sc: &Value) -> bool {
+    for (f, v, _) in calls_of(sc) {
+        match f.as_str() {
+            "set_max_parallel" => cfg.set_max_parallel(v as usize),
+            "set_read_timeout" => cfg.set_read_timeout(ms(v)),
+            "set_max_retries" => cfg.set_max_retries(v as u8),
+            "set_udp_payload_size" => cfg.set_udp_payload_size(if v < 0 { None } else { Some(v as u16) }),
+            "set_recv_size" => cfg.set_recv_size(v as usize),
+            _ => return false,
+        }
+    }
+    true
+}
+
+pub fn dg_eff(cfg: &dgram::Config) -> Value {
+    json!({"mp": cfg.max_parallel(), "rto": cfg.read_timeout().as_millis() as u64,
+           "mr": cfg.max_retries(),
+           "ups": match cfg.udp_payload_size() { Some(v) => v as i64, None => -1 },
+           "rsz": cfg.recv_size()})
+}
+
+/// A dgram::Config made by the script's route ("new", "default"; for
+/// "conn_new" there is no object: the documented default stands in for the
+/// getters, the transport is made by `Connection::new`).
+pub fn dg_config(sc: &Value) -> Option<dgram::Config> {
+    let mut cfg = match route_of(sc) {
+        "default" => dgram::Config::default(),
+        _ => dgram::Config::new(),
+    };
+    if dg_apply(&mut cfg, sc) { Some(cfg) } else { None }
+}
+
+pub fn dgram_conn(net: &DgramNet, sc: &Value) -> Option<(DgramConn, Value)> {
+    let cfg = dg_config(sc)?;
+    let eff = dg_eff(&cfg);
+    let conn = if route_of(sc) == "conn_new" {
+        dgram::Connection::new(net.clone())
+    } else {
+        dgram::Connection::with_config(net.clone(), cfg)
+    };
+    Some((conn, eff))
+}
+
+pub fn st_apply(cfg: &mut stream::Config, sc: &Value) -> bool {
+    for (f, v, _) in calls_of(sc) {
+        match f.as_str() {
+            "set_response_timeout" => cfg.set_response_timeout(ms(v)),
+            "set_streaming_response_timeout" => cfg.set_streaming_response_timeout(ms(v)),
+            "set_idle_timeout" => cfg.set_idle_timeout(ms(v)),
+            _ => return false,
+        }
+    }
+    true
+}
+
+pub fn st_eff(cfg: &stream::Config) -> Value {
+    json!({"rt": cfg.response_timeout().as_millis() as u64,
+           "srt": cfg.streaming_response_timeout().as_millis() as u64,
+           "idle": cfg.idle_timeout().as_millis() as u64})
+}
+
+pub fn st_config(sc: &Value) -> Option<stream::Config> {
+    let mut cfg = match route_of(sc) {
+        "default" => stream::Config::default(),
+        _ => stream::Config::new(),
+    };
+    if st_apply(&mut cfg, sc) { Some(cfg) } else { None }
+}
+
+use domain::net::client::{dgram_stream, multi_stream};
+
+pub fn ms_apply(cfg: &mut multi_stream::Config, sc: &Value) -> bool {
+    for (f, v, _) in calls_of(sc) {
+        match f.as_str() {
+            "set_response_timeout" => cfg.set_response_timeout(ms(v)),
+            _ => return false,
+        }
+    }
+    true
+}
+
+pub fn ms_eff(cfg: &multi_stream::Config) -> Value {
+    json!({"rt": cfg.response_timeout().as_millis() as u64, "st": st_eff(cfg.stream())})
+}
+
+/// multi_stream::Config by route: "from" (From<stream::Config>), "default"
+/// and "conn_new" (Default, the stream script through stream_mut()).
+pub fn ms_config(sc: &Value) -> Option<multi_stream::Config> {
+    let mut cfg = match route_of(sc) {
+        "from" => multi_stream::Config::from(st_config(&sc["st"])?),
+        _ => {
+            let mut c = multi_stream::Config::default();
+            if !st_apply(c.stream_mut(), &sc["st"]) {
+                return None;
+            }
+            c
+        }
+    };
+    if ms_apply(&mut cfg, sc) { Some(cfg) } else { None }
+}
+
+pub fn x_eff(cfg: &dgram_stream::Config) -> Value {
+    json!({"dg": dg_eff(cfg.dgram()), "ms": ms_eff(cfg.stream())})
+}
+
+/// dgram_stream::Config by route: "from_parts", "new_mut" (new(), both
+/// scripts through dgram_mut() / stream_mut()), "new_set" (new(),
+/// set_dgram, set_stream), "conn_new" (new(); the transport by Connection::new).
+pub fn x_config(sc: &Value) -> Option<dgram_stream::Config> {
+    match route_of(sc) {
+        "from_parts" => Some(dgram_stream::Config::from_parts(dg_config(&sc["dg"])?, ms_config(&sc["ms"])?)),
+        "new_set" => {
+            let mut c = dgram_stream::Config::new();
+            c.set_dgram(dg_config(&sc["dg"])?);
+            c.set_stream(ms_config(&sc["ms"])?);
+            Some(c)
+        }
+        _ => {
+            let mut c = dgram_stream::Config::new();
+            if !dg_apply(c.dgram_mut(), &sc["dg"]) {
+                return None;
+            }
+            if !st_apply(c.stream_mut().stream_mut(), &sc["ms"]["st"]) {
+                return None;
+            }
+            if !ms_apply(c.stream_mut(), &sc["ms"]) {
+                return None;
+            }
+            Some(c)
+        }
+    }
+}
+
+/// One configuration object of any kind (Gen_ClientConfig.tla): calls are
+/// performed one at a time, addressed through the accessor named by `at`.
+pub enum CfgObj {
+    Dg(dgram::Config),
+    St(stream::Config),
+    Ms(multi_stream::Config),
+    X(dgram_stream::Config),
+    Cc(domain::net::client::load_balancer::ConnConfig),
+    Lb(domain::net::client::load_balancer::Config),
+    Red(domain::net::client::redundant::Config),
+}
+
+impl CfgObj {
+    pub fn make(kind: &str, route: &str) -> Option<CfgObj> {
+        use domain::net::client::{load_balancer, redundant};
+        let new = route == "new";
+        Some(match kind {
+            "dg" => CfgObj::Dg(if new { dgram::Config::new() } else { Default::default() }),
+            "st" => CfgObj::St(if new { stream::Config::new() } else { Default::default() }),
+            "ms" => CfgObj::Ms(Default::default()),
+            "x" => CfgObj::X(if new { dgram_stream::Config::new() } else { Default::default() }),
+            "cc" => CfgObj::Cc(load_balancer::ConnConfig::new()),
+            "lb" => CfgObj::Lb(load_balancer::Config::default()),
+            "red" => CfgObj::Red(redundant::Config::default()),
+            _ => return None,
+        })
+    }
+
+    pub fn call(&mut self, k: &Value) -> bool {
+        let one = json!({"calls": [k]});
+        let at = k["at"].as_str().unwrap_or("");
+        let f = k["f"].as_str().unwrap_or("");
+        let v = k["v"].as_i64().unwrap_or(0);
+        match (self, at) {
+            (CfgObj::Dg(c), "") => dg_apply(c, &one),
+            (CfgObj::St(c), "") => st_apply(c, &one),
+            (CfgObj::Ms(c), "") => ms_apply(c, &one),
+            (CfgObj::Ms(c), "stream_mut") => st_apply(c.stream_mut(), &one),
+            (CfgObj::X(c), "dgram_mut") => dg_apply(c.dgram_mut(), &one),
+            (CfgObj::X(c), "stream_mut") => ms_apply(c.stream_mut(), &one),
+            (CfgObj::X(c), "stream_mut.stream_mut") => st_apply(c.stream_mut().stream_mut(), &one),
+            (CfgObj::Cc(c), "") => cc_apply(c, &one),
+            (CfgObj::Lb(c), "") => {
+                match f {
+                    "set_defer_transport_error" => c.set_defer_transport_error(v != 0),
+                    "set_defer_refused" => c.set_defer_refused(v != 0),
+                    "set_defer_servfail" => c.set_defer_servfail(v != 0),
+                    "set_slow_rt_factor" => c.set_slow_rt_factor(v as f64 / 10.0),
+                    _ => return false,
+                }
+                true
+            }
+            (CfgObj::Red(c), "") => {
+                match f {
+                    "set_defer_transport_error" => c.set_defer_transport_error(v != 0),
+                    "set_defer_refused" => c.set_defer_refused(v != 0),
+                    "set_defer_servfail" => c.set_defer_servfail(v != 0),
+                    _ => return false,
+                }
+                true
+            }
+            _ => false,
+        }
+    }
+
+    pub fn eff(&mut self) -> Value {
+        match self {
+            CfgObj::Dg(c) => dg_eff(c),
+            CfgObj::St(c) => st_eff(c),
+            CfgObj::Ms(c) => ms_eff(c),
+            CfgObj::X(c) => x_eff(c),
+            CfgObj::Cc(c) => cc_eff(c),
+            CfgObj::Lb(c) => lb_eff(c),
+            CfgObj::Red(c) => json!({"de": c.defer_transport_error(), "dr": c.defer_refused(),
+                                     "ds": c.defer_servfail()}),
+        }
+    }
+}
+
+pub fn cc_apply(c: &mut domain::net::client::load_balancer::ConnConfig, sc: &Value) -> bool {
+    for (f, v, _) in calls_of(sc) {
+        match f.as_str() {
+            "set_max_burst" => c.set_max_burst(if v < 0 { None } else { Some(v as u64) }),
+            "set_burst_interval" => c.set_burst_interval(ms(v)),
+            _ => return false,
+        }
+    }
+    true
+}
+
+pub fn cc_eff(c: &mut domain::net::client::load_balancer::ConnConfig) -> Value {
+    json!({"mb": match c.max_burst() { Some(v) => v as i64, None => -1 },
+           "iv": c.burst_interval().as_millis() as u64})
+}
+
+pub fn lb_eff(c: &domain::net::client::load_balancer::Config) -> Value {
+    json!({"de": c.defer_transport_error(), "dr": c.defer_refused(), "ds": c.defer_servfail(),
+           "srf": (c.slow_rt_factor() * 10.0).round() as i64})
+}
+
+/// The EDNS payload size a request carries on the wire (-1: no OPT record).
+pub fn request_ups(bytes: &[u8]) -> i64 {
+    match Message::from_slice(bytes) {
+        Ok(m) => match m.opt() {
+            Some(o) => o.udp_payload_size() as i64,
+            None => -1,
+        },
+        Err(_) => -2,
+    }
+}
+
+/// A request datagram as ClientDgram.tla sees it: `[q, ups]`.
+pub fn abstract_dgram_request(bytes: &[u8]) -> Value {
+    json!({"q": abstract_request(bytes)["q"], "ups": request_ups(bytes)})
 }
 
 pub fn runtime() -> tokio::runtime::Runtime {
